@@ -54,6 +54,50 @@ func genC20(r *Rng, e *Emitter, n int) {
 			e.tally("wrap-around-gap")
 		}
 	}
+	// very long, densely sampled tracks (2^16 points and more): straight runs in steps of a few
+	// thresholds, with small spikes of two or three vertices whose heights straddle the threshold
+	{
+		sizes := []int{65536 + r.Intn(3), 70000}
+		if n >= 100000 {
+			sizes = append(sizes, 65535, 65536, 65537, 131073, 100000+r.Intn(50000))
+		}
+		for _, size := range sizes {
+			stride := 2 + r.Intn(2)
+			thr := float64(5 + r.Intn(20))
+			stepX := float64(1 + r.Intn(12))*thr - float64(r.Intn(5))
+			flat := make([]float64, 0, size*stride)
+			x := 0.0
+			spikeEvery := 3000 + r.Intn(9000)
+			np := 0
+			add := func(px, py float64) {
+				if np >= size {
+					return
+				}
+				flat = append(flat, px, py)
+				for o := 2; o < stride; o++ {
+					flat = append(flat, float64(np))
+				}
+				np++
+			}
+			for np < size {
+				add(x, 0)
+				if np%spikeEvery == spikeEvery/2 {
+					h := float64(1+r.Intn(int(thr))) - 1
+					dx := math.Floor(stepX / 2)
+					add(x+dx, h)
+					h += float64(1 + r.Intn(int(thr)))
+					add(x+dx, h)
+					if r.chance(1, 2) {
+						h += float64(1 + r.Intn(int(thr)))
+						add(x+dx+1, h)
+					}
+				}
+				x += stepX
+			}
+			e.tally("very-long-track")
+			c20Call(e, stride, thr, flat)
+		}
+	}
 	for i := 0; i < n; i++ {
 		stride := 2 + r.Intn(4)
 		size := r.Intn(12)
